@@ -14,6 +14,8 @@ by construction, so every check must stay silent:
   not-none   `x is not None` -> `not x is None`
   tuple-in   `x in (a, b)` <-> `x in [a, b]`
   demorgan   if A and B -> if not (not A or not B)  (and the dual), tests of if / while only
+  tail-flip  if C: A(leaves) REST(leaves) -> if not C: REST; A
+  swap-independent  adjacent independent call-free assignments exchanged
   extract-temp  x = f(A, ..) -> _arg_tmp = A; x = f(_arg_tmp, ..)  for a call-free first argument A
 
   FALSE-ALARM     a check reports a finding that is not there on the unchanged tree
@@ -272,7 +274,72 @@ class ExtractTemp(ast.NodeTransformer):
         return self.generic_visit(node)
 
 
-KINDS = {"demorgan": DeMorgan, "extract-temp": ExtractTemp, "kwargs": Kwargs, "flip-if": FlipIf, "elif": Elif, "swap-is": SwapEq, "temp-ret": TempRet, "v-value": VValue, "not-none": NotNone, "tuple-in": TupleIn}
+def _leaves(body):
+    return bool(body) and isinstance(body[-1], (ast.Return, ast.Raise))
+
+
+class TailFlip(ast.NodeTransformer):
+    """if C: A(leaves)  REST(leaves)   ->   if not C: REST  A        (function-body level and nested blocks whose
+    remainder ends the block with return / raise)"""
+
+    n = 0
+
+    def _body(self, body):
+        body = [self.generic_visit(s) for s in body]
+        for i, s_ in enumerate(body):
+            if isinstance(s_, ast.If) and not s_.orelse and _leaves(s_.body) and i + 1 < len(body) and _leaves(body[i + 1:]):
+                rest = body[i + 1:]
+                new_if = ast.If(test=_neg(s_.test), body=rest, orelse=[])
+                ast.copy_location(new_if, s_)
+                self.n += 1
+                return body[:i] + [new_if] + s_.body
+        return body
+
+    def generic_visit(self, node):
+        if isinstance(node, (ast.FunctionDef, ast.Lambda, ast.ClassDef)) and getattr(self, "_inside", False):
+            return node
+        for fld in ("body", "orelse", "finalbody"):
+            b = getattr(node, fld, None)
+            if isinstance(b, list) and b and isinstance(b[0], ast.stmt):
+                self._inside = True
+                setattr(node, fld, self._body(b))
+        for h in getattr(node, "handlers", []) or []:
+            h.body = self._body(h.body)
+        return node
+
+    def visit(self, node):
+        return self.generic_visit(node)
+
+
+class SwapIndependent(ast.NodeTransformer):
+    """two adjacent simple assignments `a = E1; b = E2` with call-free right-hand sides, different plain-name targets and
+    no data dependence between them are exchanged"""
+
+    n = 0
+
+    def _body(self, body):
+        body = [self.generic_visit(s) for s in body]
+        i = 0
+        out = list(body)
+        while i + 1 < len(out):
+            a, b = out[i], out[i + 1]
+            if all(isinstance(x, ast.Assign) and len(x.targets) == 1 and isinstance(x.targets[0], ast.Name) and _simple(x.value) for x in (a, b)):
+                ta, tb = a.targets[0].id, b.targets[0].id
+                na = {x.id for x in ast.walk(a.value) if isinstance(x, ast.Name)}
+                nb = {x.id for x in ast.walk(b.value) if isinstance(x, ast.Name)}
+                if ta != tb and ta not in nb and tb not in na:
+                    out[i], out[i + 1] = b, a
+                    self.n += 1
+                    i += 2
+                    continue
+            i += 1
+        return out
+
+    generic_visit = TailFlip.generic_visit
+    visit = TailFlip.visit
+
+
+KINDS = {"tail-flip": TailFlip, "swap-independent": SwapIndependent, "demorgan": DeMorgan, "extract-temp": ExtractTemp, "kwargs": Kwargs, "flip-if": FlipIf, "elif": Elif, "swap-is": SwapEq, "temp-ret": TempRet, "v-value": VValue, "not-none": NotNone, "tuple-in": TupleIn}
 
 
 def functions(tree):
@@ -299,7 +366,7 @@ def apply_variant(src, qual, lineno, kind):
     for q, fn in functions(tree):
         if q == qual and fn.lineno == lineno:
             t = KINDS[kind]()
-            if kind in ("elif", "temp-ret", "extract-temp"):
+            if kind in ("elif", "temp-ret", "extract-temp", "tail-flip", "swap-independent"):
                 t.generic_visit(fn)
             else:
                 for i, st in enumerate(fn.body):
